@@ -590,11 +590,27 @@ func (ex *zzC13Exec) dustOnOurs(idx uint64) bool {
 }
 
 // dustOnConfirmed: offered HTLC idx has no output on the commitment that
-// confirmed (or no commitment of ours and theirs confirmed at all).
+// confirmed and lnd's action for it is HtlcFailDustAction: dust on the
+// confirmed commitment, or absent from it and dust on a commitment that holds it.
 func (ex *zzC13Exec) dustOnConfirmed(idx uint64) bool {
 	h := ex.offered(idx)
 	set := ex.chain.confSet()
-	return h != nil && set >= 0 && h.dust[set]
+	if h == nil || set < 0 {
+		return false
+	}
+	if h.in[set] {
+		return h.dust[set]
+	}
+	// Not on the confirmed commitment at all: lnd classifies it by the
+	// commitment it found it on - HtlcFailDustAction if it is dust there
+	// (same recorded C12 finding), HtlcFailDanglingAction otherwise (executed
+	// in StateContractClosed, judged).
+	for s := 0; s < 3; s++ {
+		if h.in[s] && h.dust[s] {
+			return true
+		}
+	}
+	return false
 }
 
 // preimageKnown: does the node hold the preimage of offered HTLC idx at the
